@@ -38,6 +38,10 @@ def composite_instances():
         (("Add", [("Sine", x), ("Logarithm", x, E)]), "composite:sum-with-partial-sibling"),
         (("Multiply", [("Cosine", x), ("Reciprocal", x), ("NthPower", x, 2)]), "composite:product-with-partial-sibling"),
         (("Minus", ("Exponential", x, 2), ("NthRoot", x, 2)), "composite:difference-with-partial-sibling"),
+        # sums / products that still carry several literal constants, below a non-linear parent
+        (("NthPower", ("Add", [x, ("Constant", 2), ("Constant", 3)]), 2), "composite:several-constants-in-sum"),
+        (("Sine", ("Multiply", [("Constant", 2), x, ("Constant", 3), y])), "composite:several-constants-in-product"),
+        (("Multiply", [("Add", [("Add", [x, ("Constant", 2)]), ("Constant", 3)]), ("Exponential", y, 2)]), "composite:nested-constants"),
     ]
 
 
@@ -181,6 +185,8 @@ def judge(rep, tree, label, val, results, api):
             construct += " after its nodes became operands of other expressions"
         if api == "at-after-other":
             construct += " after evaluations at other points"
+        if api == "at-after-symbolic":
+            construct += " after symbolic differentiation / simplification of the same object"
         if st == "unsupported":
             rep.unknown("C01.value", construct, "", f"interpreter: {r['reason']} on {r['tree']}")
         elif st == "value-differs":
@@ -234,6 +240,12 @@ def check(rep):
         if names:
             for val in valuations(names, coarse):
                 cases.append((tree, label, val, "at-after-other"))
+    # the same expression evaluated after it was differentiated symbolically / simplified
+    for tree, label in inst1 + composite_instances() + constant_child_instances(model, tier):
+        names = spec.variables(tree)
+        if names:
+            for val in valuations(names, coarse if len(names) <= 2 else SIGN_REGIONS):
+                cases.append((tree, label, val, "at-after-symbolic"))
     # bare-number entry point: every one-variable and zero-variable depth-1 instance
     for tree, label in inst1:
         names = spec.variables(tree)
